@@ -11,7 +11,7 @@ R5 every non-NONE WhatsModifiedFlag member is produced somewhere
 import ast
 
 from ..core import AnalysisError, norm, loc, walk_no_nested, attr_chain, call_name, func_params, kwarg
-from ..normalize import alpha, inline, local_env, expand, canon, ctext, branch_values, merge_outcomes, Unknown, eval_test, builders, comp_builder, _enclosing
+from ..normalize import alpha, inline, local_env, expand, canon, ctext, branch_values, merge_outcomes, Unknown, eval_test, builders, comp_builder, _enclosing, conjuncts
 from .. import fieldwise as fw
 
 BASE = 'fim.slivers.base_sliver:BaseSliver'
@@ -276,6 +276,46 @@ def run(prog, rep):
                 if ch and ch[0] == 'WhatsModifiedFlag':
                     produced.add(ch[-1])
 
+    # R6: the SUB_INTERFACES flag
+    rep.rule('R6', 'SUB_INTERFACES is raised for exactly the elements that can have sub-interfaces, and only for changes of sub-interfaces', floor=2)
+    from .c18 import interface_kind_dispatch
+    disp = interface_kind_dispatch(prog)
+    can_have_children = {t for t, k in disp.items() if k == 'DedicatedPort'}
+    for spec in DIFF_CLASSES:
+        cls = prog.cls(spec)
+        fn = inline(prog, cls, cls.methods['diff'], exclude=('_dict_diff', '_dict_common'))
+        fenv6 = local_env(fn)
+        for st in walk_no_nested(fn):
+            if not (isinstance(st, ast.AugAssign) and isinstance(st.op, ast.BitOr) and (attr_chain(st.value) or [None])[-1] == 'SUB_INTERFACES'):
+                continue
+            _, conds_ = _enclosing(st, fn)
+            cjs = [cj for c_ in conds_ for cj in conjuncts(canon(c_))]
+            # (a) which component types are looked into (node level)
+            types_ = set()
+            for cj in cjs:
+                if isinstance(cj, ast.Compare) and len(cj.ops) == 1 and any(isinstance(x, ast.Call) and call_name(x) == 'get_type' for x in ast.walk(cj)):
+                    for x in ast.walk(cj):
+                        ch_ = attr_chain(x) if isinstance(x, ast.Attribute) else None
+                        if ch_ and ch_[0] == 'ComponentType':
+                            types_.add(ch_[-1])
+            if types_:
+                rep.instance('R6', f'{cls.name}.diff: sub-interfaces compared for component types {sorted(types_)}; types with dedicated ports {sorted(can_have_children)}')
+                if types_ != can_have_children:
+                    rep.violation('R6', loc(cls.module, st), f'{cls.name}.diff', f'sub-interfaces compared for {sorted(types_)} only',
+                                  f'components of type {sorted(can_have_children - types_)} have dedicated ports, which accept sub-interfaces, but their '
+                                  f'sub-interfaces are never compared: adding, changing or removing one is not reported')
+            # (b) the nested comparison that raises the flag looks at the interface collections of its result, not at "anything differs"
+            looks_inside = any(isinstance(x, ast.Attribute) and x.attr == 'interfaces' for cj in cjs for x in ast.walk(cj))
+            for cj in cjs:
+                e_ = expand(cj, fenv6)
+                if isinstance(e_, ast.Call) and call_name(e_) == 'diff':
+                    rep.instance('R6', f'{cls.name}.diff: SUB_INTERFACES raised when `{norm(cj, 60)}`; the interface collections of that diff are inspected: {looks_inside}')
+                    if looks_inside:
+                        continue
+                    rep.violation('R6', loc(cls.module, st), f'{cls.name}.diff', f'SUB_INTERFACES raised whenever `{norm(e_, 50)}` reports anything',
+                                  f'the flag is raised when the nested diff is non-empty; that diff is also non-empty when only the element\'s own labels, '
+                                  f'capacities or user data changed, so a port whose labels changed is reported as LABELS|SUB_INTERFACES although no '
+                                  f'sub-interface changed')
     # prop_diff
     pd = base.methods.get('prop_diff')
     if pd is None:
@@ -411,6 +451,10 @@ def run(prog, rep):
 
 NN = 'fim/slivers/network_node.py'
 MUTANTS = [
+    {'name': 'fpga-sub-interfaces-not-compared', 'file': 'fim/slivers/network_node.py', 'rule': 'R6',
+     'find': 'if cA.get_type() in (ComponentType.SmartNIC, ComponentType.FPGA):', 'replace': 'if cA.get_type() == ComponentType.SmartNIC:'},
+    {'name': 'sub-interfaces-flag-on-any-difference', 'file': 'fim/slivers/network_service.py', 'rule': 'R6',
+     'find': 'if if_diff and (if_diff.added.interfaces or if_diff.removed.interfaces or if_diff.modified.interfaces):', 'replace': 'if if_diff:'},
     {'name': 'node-services-diff-both-other', 'file': NN, 'rule': 'R1',
      'find': 'diff_ns = self._dict_diff(self.network_service_info.network_services,',
      'replace': 'diff_ns = self._dict_diff(other_sliver.network_service_info.network_services,'},
